@@ -106,5 +106,6 @@ def proj_token(t):
     arg = t.arg
     if t.tok == 'specials':
         arg = arg.specials_chars
-    return dict(t=t.tok, arg=[ord(c) for c in arg], pos=t.pos, pos_end=t.pos_end, pre=len(t.pre_space),
-                post=len(getattr(t, 'post_space', '') or ''))
+    from .proj import _int
+    return dict(t=t.tok, arg=[ord(c) for c in (arg if isinstance(arg, str) else '')], pos=_int(t.pos), pos_end=_int(t.pos_end),
+                pre=len(t.pre_space or ''), post=len(getattr(t, 'post_space', '') or ''))
